@@ -99,5 +99,110 @@ theorem net_total_spec (s : Int) : Gen.AugerYield2_prdata T Z s = Except.ok (net
       · exact net_total_7 T Z hZ' hZ hb
       · exact net_total_8 T Z hZ' hZ hb
 
+
+theorem netTotal_call (s : Int) : Gen.AugerYield2_prdata T Z s = Except.ok (netTotal T Z s) := net_total_spec T Z s
+
+omit T Z in
+theorem augerInit_bucket (a : Int) (h0 : 0 ≤ a) :
+    augerInit a = (if a < 240 then 0 else if a < 443 then 1 else if a < 611 then 2 else if a < 746 then 3
+      else if a < 850 then 4 else if a < 925 then 5 else if a < 973 then 6 else 7) := by
+  unfold augerInit
+  simp only [Hdr.auger_first_of_shell, List.foldl]
+  split_ifs <;> omega
+
+/-- the condition the generated code tests (the 351 `case` labels of src/pr_data.c, as runs) -/
+def GenCK (a : Int) : Prop :=
+  (240 ≤ a ∧ a ≤ 299) ∨ (327 ≤ a ∧ a ≤ 328) ∨ (356 ≤ a ∧ a ≤ 357) ∨ (385 ≤ a ∧ a ≤ 386) ∨ (414 ≤ a ∧ a ≤ 415) ∨
+  (443 ≤ a ∧ a ≤ 471) ∨ a = 499 ∨ a = 527 ∨ a = 555 ∨ a = 583 ∨ (746 ≤ a ∧ a ≤ 995)
+
+omit T Z in
+theorem isCKAuger_iff (a : Int) : isCKAuger a = true ↔ GenCK a := by
+  unfold isCKAuger GenCK
+  simp only [Hdr.auger_ck_runs, List.any, Bool.or_false, Bool.or_eq_true, decide_eq_true_eq]
+  constructor <;> intro h <;> omega
+
+theorem auger_rate_inrange (a : Int) (hZ' : 1 ≤ Z ∧ Z ≤ 120) (ha' : 0 ≤ a ∧ a < 996) :
+    Gen.AugerRate_prdata T Z a = Except.ok (augerRate T Z a) := by
+  have hZ : ¬ (Z > 120 ∨ Z < 1) := by omega
+  have hb : 0 ≤ Z ∧ Z < 121 := by omega
+  have ha : ¬ (a < 0 ∨ a > 995) := by omega
+  have hi := augerInit_bucket a ha'.1
+  have key : ∀ y : ℝ, ¬ y < (1.0e-8 : ℝ) → ¬ deq y (0.0 : ℝ) := by
+    intro y hy hd
+    rw [deq_real] at hd
+    norm_num at hy hd
+    rw [hd] at hy; norm_num at hy
+  unfold Gen.AugerRate_prdata augerRate zOk rawRate
+  simp only [↓reduceIte, hZ, ha, Hdr.ZMAX, Hdr.AUGERNUM, hZ', ha', decide_true, and_self, hi]
+  simp only [net_total_spec, bind_ok, pure_eq_ok, rd2, ddiv, hb, ha', and_self, true_and, Nat.cast_ofNat, ↓reduceIte]
+  by_cases hck : isCKAuger a = true
+  · have hg := (isCKAuger_iff a).mp hck
+    unfold GenCK at hg
+    rw [if_pos hg, if_pos hck]
+  · have hg := fun h => hck ((isCKAuger_iff a).mpr h)
+    unfold GenCK at hg
+    rw [if_neg hg, if_neg hck]
+    by_cases hr : deq (T.Auger_Transition_Individual Z.toNat a.toNat) (0.0 : ℝ)
+    · rw [if_pos hr, if_pos hr]
+    · rw [if_neg hr, if_neg hr]
+      have fin : ∀ y : ℝ, (if y < (1.0e-8:ℝ) then (Except.ok (0.0:ℝ) : M ℝ) else if deq y (0.0:ℝ) then throw (Abort.nf "div0")
+            else Except.ok (T.Auger_Transition_Individual Z.toNat a.toNat / y)) =
+          Except.ok (if y < (1.0e-8:ℝ) then (0.0:ℝ) else T.Auger_Transition_Individual Z.toNat a.toNat / y) := by
+        intro y
+        by_cases hy : y < (1.0e-8:ℝ)
+        · simp only [hy, ↓reduceIte]
+        · simp only [hy, key y hy, ↓reduceIte]
+      by_cases b1 : a < 240
+      · simp only [b1, ↓reduceIte]; exact fin _
+      by_cases b2 : a < 443
+      · simp only [b1, b2, ↓reduceIte]; exact fin _
+      by_cases b3 : a < 611
+      · simp only [b1, b2, b3, ↓reduceIte]; exact fin _
+      by_cases b4 : a < 746
+      · simp only [b1, b2, b3, b4, ↓reduceIte]; exact fin _
+      by_cases b5 : a < 850
+      · simp only [b1, b2, b3, b4, b5, ↓reduceIte]; exact fin _
+      by_cases b6 : a < 925
+      · simp only [b1, b2, b3, b4, b5, b6, ↓reduceIte]; exact fin _
+      by_cases b7 : a < 973
+      · simp only [b1, b2, b3, b4, b5, b6, b7, ↓reduceIte]; exact fin _
+      · simp only [b1, b2, b3, b4, b5, b6, b7, ↓reduceIte]; exact fin _
+
+/-- **Auger rate** = raw rate / net non-radiative total of its initial shell; 0 ("unavailable") for
+Coster–Kronig-type transitions, untabulated transitions, a net total below 1e-8, and arguments out of range -/
+theorem auger_rate_spec (a : Int) : Gen.AugerRate_prdata T Z a = Except.ok (augerRate T Z a) := by
+  by_cases hZ : Z > 120 ∨ Z < 1
+  · have : ¬ (1 ≤ Z ∧ Z ≤ 120) := by omega
+    unfold Gen.AugerRate_prdata augerRate zOk
+    simp only [↓reduceIte, hZ, Hdr.ZMAX, this, decide_false, Bool.false_eq_true, false_and, pure_eq_ok]
+  · have hZ' : 1 ≤ Z ∧ Z ≤ 120 := by omega
+    by_cases ha : a < 0 ∨ a > 995
+    · have : ¬ (0 ≤ a ∧ a < 996) := by omega
+      unfold Gen.AugerRate_prdata augerRate
+      simp only [↓reduceIte, hZ, ha, Hdr.AUGERNUM, this, and_false, pure_eq_ok]
+    · exact auger_rate_inrange T Z a hZ' (by omega)
+
+/-- the three decay channels of a sub-shell partition unity (whenever the Auger yield is computed at all) -/
+theorem yield_partition (s : Int) (hs : 0 ≤ s ∧ s ≤ 8) (hZ : 1 ≤ Z ∧ Z ≤ 120)
+    (hw : valOr0 (Spec.FluorYield T Z s) ≠ 0) :
+    valOr0 (Spec.FluorYield T Z s) +
+      ((lookupList Hdr.ck_of_shell s).map (fun t => valOr0 (Spec.CosKronTransProb T Z t))).sum + augerYield T Z s = 1 := by
+  unfold augerYield zOk
+  have hz : decide (1 ≤ Z ∧ Z ≤ Hdr.ZMAX) = true := by simp [Hdr.ZMAX, hZ]
+  have hs' : 0 ≤ s ∧ s ≤ Hdr.M5_SHELL := by simpa [Hdr.M5_SHELL] using hs
+  simp only [hz, hs', and_self, true_and, if_true]
+  have hw' : ¬ deq (valOr0 (Spec.FluorYield T Z s)) (0.0 : ℝ) := by rw [deq_real]; norm_num; exact hw
+  simp only [hw', if_false]
+  generalize lookupList Hdr.ck_of_shell s = l
+  generalize valOr0 (Spec.FluorYield T Z s) = w
+  have : ∀ (l : List Int) (x : ℝ), l.foldl (fun acc t => acc - valOr0 (Spec.CosKronTransProb T Z t)) x =
+      x - (l.map (fun t => valOr0 (Spec.CosKronTransProb T Z t))).sum := by
+    intro l
+    induction l with
+    | nil => intro x; simp
+    | cons t l ih => intro x; simp only [List.foldl_cons, List.map_cons, List.sum_cons, ih]; ring
+  rw [this]
+  norm_num
+
 end C11
 end Xrl
